@@ -507,6 +507,51 @@ Proof. intros ND Hd H1 H2 L.
       { apply memb_false. intros A. apply (Disj n); [exact (proj1 S1 n A) | apply in_map_iff; exists (n, wt); auto]. }
       rewrite N1. cbn [orb]. rewrite <- wof_app. exact (proj2 S2 n wt Hn). Qed.
 
+(* ... and the second phase may start on a world that gained NEW entries E in between (lyd_new_implicit_module creates
+   the nested default nodes only after the top-level ones were resolved), provided the first phase reads none of them *)
+Lemma entries_app d (w1 w2 : world) : entries d (w1 ++ w2) = entries d w1 ++ entries d w2.
+Proof. unfold entries. apply filter_app. Qed.
+
+Lemma wof_app_l w1 w2 D : wof (w1 ++ w2) D = wof w1 D ++ wof w2 D.
+Proof. unfold wof. apply filter_app. Qed.
+
+Lemma wof_untouched (E : world) D : (forall x, In x D -> entries x E = []) -> wof E D = E.
+Proof. unfold wof, entries. induction E as [|p E IH]; intros H; [reflexivity|]. cbn [filter].
+  assert (M : memb (fst p) D = false).
+  { apply memb_false. intros A. specialize (H (fst p) A). cbn [filter] in H. rewrite Nat.eqb_refl in H. discriminate. }
+  rewrite M. cbn [negb]. f_equal. apply IH. intros x Hx. specialize (H x Hx). cbn [filter] in H.
+  destruct (fst p =? x); [discriminate | exact H]. Qed.
+
+Theorem run_split_ext w0 (E : world) Q1 Q2 f1 f2 f w1 w2 :
+  NoDup (qids (Q1 ++ Q2)) ->
+  (forall n wt d, In (n, wt) Q1 -> In d (deps n) -> ~ In d (qids Q2) /\ entries d E = []) ->
+  (forall x, In x (qids Q1) -> entries x E = []) ->
+  run f1 w0 Q1 = Done w1 -> run f2 (w1 ++ E) Q2 = Done w2 -> length (Q1 ++ Q2) <= f ->
+  run f (w0 ++ E) (Q1 ++ Q2) = Done w2.
+Proof. intros ND Hd HE H1 H2 L.
+  assert (ND' := ND). unfold qids in ND'. rewrite map_app in ND'.
+  destruct (NoDup_app_parts _ _ ND') as [ND1 [ND2 Disj]].
+  destruct (run_sound w0 Q1 ND1 f1 w1 H1) as [D1 [E1 S1]]. subst w1.
+  assert (EW : wof w0 D1 ++ E = wof (w0 ++ E) D1).
+  { rewrite wof_app_l. f_equal. symmetry. apply wof_untouched. intros x Hx. apply HE. exact (proj1 S1 x Hx). }
+  rewrite EW in H2.
+  destruct (run_sound (wof (w0 ++ E) D1) Q2 ND2 f2 w2 H2) as [D2 [E2 S2]]. subst w2.
+  rewrite wof_app. apply run_complete; [|exact L]. split.
+  - intros x Hx. unfold qids. rewrite map_app. apply in_or_app. apply in_app_or in Hx.
+    destruct Hx as [Hx|Hx]; [left; exact (proj1 S1 x Hx) | right; exact (proj1 S2 x Hx)].
+  - intros n wt Hn. rewrite memb_app. apply in_app_or in Hn. destruct Hn as [Hn|Hn].
+    + assert (N2 : memb n D2 = false).
+      { apply memb_false. intros A. apply (Disj n); [apply in_map_iff; exists (n, wt); auto | exact (proj1 S2 n A)]. }
+      rewrite N2, orb_false_r.
+      assert (EC : cond n (wof (w0 ++ E) (D1 ++ D2)) = cond n (wof w0 D1)).
+      { apply cond_deps. intros d Hdd. destruct (Hd n wt d Hn Hdd) as [Hq He]. rewrite !entries_wof, memb_app.
+        assert (M : memb d D2 = false) by (apply memb_false; intros A; exact (Hq (proj1 S2 d A))).
+        rewrite M, orb_false_r. destruct (memb d D1); [reflexivity|]. rewrite entries_app, He. apply app_nil_r. }
+      rewrite EC. exact (proj2 S1 n wt Hn).
+    + assert (N1 : memb n D1 = false).
+      { apply memb_false. intros A. apply (Disj n); [exact (proj1 S1 n A) | apply in_map_iff; exists (n, wt); auto]. }
+      rewrite N1. cbn [orb]. rewrite <- wof_app. exact (proj2 S2 n wt Hn). Qed.
+
 Lemma filter_len_le {A} (f : A -> bool) l : length (filter f l) <= length l.
 Proof. induction l as [|a l IH]; cbn; [lia|]. destruct (f a); cbn; lia. Qed.
 
@@ -596,3 +641,29 @@ Proof. intros A ND Hd H1 H2.
 
 Theorem wrun_all_true_done p w Q : acyclicb p = true -> forallb snd Q = true -> exists w', wrun p w Q = Done w'.
 Proof. intros A H. apply (run_all_true_done nat (pcond p) (pdeps p) (fun x => x) (acyclicb_spec p A)); [apply le_n|exact H]. Qed.
+
+Theorem wrun_split_ext p w E Q1 Q2 w1 w2 : acyclicb p = true -> NoDup (map fst (Q1 ++ Q2)) ->
+  (forall n wt d, In (n, wt) Q1 -> In d (pdeps p n) -> ~ In d (map fst Q2) /\ entries nat d E = []) ->
+  (forall x, In x (map fst Q1) -> entries nat x E = []) ->
+  wrun p w Q1 = Done w1 -> wrun p (w1 ++ E) Q2 = Done w2 -> wrun p (w ++ E) (Q1 ++ Q2) = Done w2.
+Proof. intros A ND Hd HE H1 H2.
+  apply (run_split_ext nat (pcond p) (pdeps p) (fun x => x) (acyclicb_spec p A)
+           (fun n w1 w2 H => ceval_agree (expr_of p n) w1 w2 H) w E Q1 Q2 (length Q1) (length Q2) _ w1 w2 ND Hd HE H1 H2).
+  apply le_n. Qed.
+
+(* regression instance for the class of seeded change C07-8 (lyd_new_implicit_module resolving the new top-level nodes only
+   AFTER the nested ones were created and resolved): node 0 = explicit top-level leaf mode (value 0), node 1 = top-level
+   default flag (value 1) with when "mode = 7" (false), node 2 = nested default extra (value 5) with when "flag = 1".
+   Phases in libyang's order (top-level, then nested on the resulting world) delete both defaults, and so does ONE
+   resolution of both (the dependent node is postponed); resolving the nested node first, while the doomed flag still
+   exists, keeps extra although its when is false in the result. *)
+Definition ph_prog : prog := [(1, CEq 0 7); (2, CEq 1 1)].
+Definition ph_w : list (nat * nat) := [(0, 0)].
+Lemma ph_facts :
+  acyclicb ph_prog = true /\
+  wrun ph_prog (ph_w ++ [(1, 1)]) [(1, true)] = Done ph_w /\
+  wrun ph_prog (ph_w ++ [(2, 5)]) [(2, true)] = Done ph_w /\
+  wrun ph_prog (ph_w ++ [(1, 1)] ++ [(2, 5)]) ([(1, true)] ++ [(2, true)]) = Done ph_w /\
+  wrun ph_prog (ph_w ++ [(1, 1)] ++ [(2, 5)]) [(2, true)] = Done (ph_w ++ [(1, 1)] ++ [(2, 5)]) /\
+  wrun ph_prog (ph_w ++ [(1, 1)] ++ [(2, 5)]) [(1, true)] = Done (ph_w ++ [(2, 5)]).
+Proof. vm_compute. repeat split; reflexivity. Qed.
